@@ -120,6 +120,15 @@ func (f *flusher) markMetadataDirty(key, mdSuffix string) {
 		return // Blob is not yet complete, we can't start flushing.
 	}
 
+	// A flush that finished concurrently may have unbanned the blob after the caller banned it:
+	// ban it (again) for as long as it is dirty.
+	if err := f.mem.BanEviction(key); err != nil && !errors.Is(err, os.ErrNotExist) {
+		f.log.With(
+			"key", key,
+			"error", fmt.Errorf("mem store ban eviction: %w", err),
+		).Error("Could not ban eviction of a blob with dirty metadata")
+	}
+
 	f.blobs[key] = &blob{
 		key:       key,
 		dataDirty: false,
@@ -179,6 +188,14 @@ func (f *flusher) flush(b *blob) {
 	key := b.key
 	defer func() {
 		verifPoint("unban", key)
+		// Unban under the flusher lock and only if the blob has not been marked dirty again meanwhile:
+		// otherwise a metadata update that arrives after the dirty entry is dropped, but before this
+		// unban, would leave a dirty blob evictable and the update could be lost to memory pressure.
+		f.mu.Lock()
+		defer f.mu.Unlock()
+		if _, dirty := f.blobs[key]; dirty {
+			return
+		}
 		err := f.mem.UnbanEviction(key) // prevent leak
 		if err != nil {
 			f.log.With(
